@@ -217,3 +217,39 @@ if [ ! -f srvcnsan-sign.cert.pem ]; then
   openssl x509 -in tlscnsan.cert.pem -noout -subject -ext subjectAltName | tr '\n' ' '; echo
   openssl x509 -in srvcnsan-sign.cert.pem -noout -subject -ext subjectAltName | tr '\n' ' '; echo
 fi
+# wave 12: (a) path-length constraint: caA -> caAp0 (CA, pathlen:0) -> caAp0sub (CA issued in violation of it) -> leaves;
+#          (b) ECDSA P-384 / P-521 identities under rsaCA (server and client)
+if [ ! -f caAp0.cert.pem ]; then
+  sub() { # name CN issuer bc serial
+    openssl genpkey -algorithm SM2 -out "$1.key.pem" 2>/dev/null
+    { echo "basicConstraints=critical,$4"; echo "keyUsage=critical,keyCertSign,cRLSign"; echo "subjectKeyIdentifier=hash"; echo "authorityKeyIdentifier=keyid"; } > t.ext
+    openssl req -new -key "$1.key.pem" -subj "/C=CN/O=verifsim/CN=$2" -out t.csr -sm3 $D
+    openssl x509 -req $V -in t.csr -CA "$3.cert.pem" -CAkey "$3.key.pem" -out "$1.cert.pem" -extfile t.ext -not_before $VB -not_after $VA -sm3 $D -set_serial $5 2>/dev/null
+    rm -f t.csr t.ext
+  }
+  sub caAp0 "verifsim SM2 issuing CA (pathlen 0)" caA "CA:TRUE,pathlen:0" 9951
+  sub caAp0sub "verifsim SM2 CA below a pathlen-0 CA" caAp0 "CA:TRUE" 9952
+  openssl genpkey -algorithm SM2 -out clip0.key.pem 2>/dev/null
+  { echo "basicConstraints=critical,CA:FALSE"; echo "keyUsage=critical,digitalSignature"; echo "extendedKeyUsage=clientAuth"; echo "subjectKeyIdentifier=hash"; echo "authorityKeyIdentifier=keyid"; } > t.ext
+  openssl req -new -key clip0.key.pem -subj "/C=CN/O=verifsim/CN=client below pathlen-0 sub CA" -out t.csr -sm3 $D
+  openssl x509 -req $V -in t.csr -CA caAp0sub.cert.pem -CAkey caAp0sub.key.pem -out clip0.cert.pem -extfile t.ext -not_before $VB -not_after $VA -sm3 $D -set_serial 9953 2>/dev/null
+  openssl genpkey -algorithm SM2 -out clip0ok.key.pem 2>/dev/null
+  openssl req -new -key clip0ok.key.pem -subj "/C=CN/O=verifsim/CN=client directly below the pathlen-0 CA" -out t.csr -sm3 $D
+  openssl x509 -req $V -in t.csr -CA caAp0.cert.pem -CAkey caAp0.key.pem -out clip0ok.cert.pem -extfile t.ext -not_before $VB -not_after $VA -sm3 $D -set_serial 9954 2>/dev/null
+  rm -f t.csr t.ext
+  openssl x509 -in caAp0.cert.pem -noout -ext basicConstraints | tr '\n' ' '; echo
+fi
+if [ ! -f tlsp384.cert.pem ]; then
+  ecid() { # name curve CN eku san serial
+    openssl genpkey -algorithm EC -pkeyopt ec_paramgen_curve:$2 -out "$1.key.pem" 2>/dev/null
+    { echo "basicConstraints=critical,CA:FALSE"; echo "keyUsage=critical,digitalSignature"; echo "extendedKeyUsage=$4"; echo "subjectKeyIdentifier=hash"; echo "authorityKeyIdentifier=keyid"; [ -z "$5" ] || echo "subjectAltName=DNS:$5"; } > t.ext
+    openssl req -new -key "$1.key.pem" -subj "/C=CN/O=verifsim/CN=$3" -out t.csr -sha256
+    openssl x509 -req -in t.csr -CA rsaCA.cert.pem -CAkey rsaCA.key.pem -out "$1.cert.pem" -extfile t.ext -not_before $VB -not_after $VA -sha256 -set_serial $6 2>/dev/null
+    rm -f t.csr t.ext
+  }
+  ecid tlsp384 secp384r1 "server.sim" serverAuth server.sim 9961
+  ecid tlsp521 secp521r1 "server.sim" serverAuth server.sim 9962
+  ecid tlsclip384 secp384r1 "client p384" clientAuth "" 9963
+  ecid tlsclip521 secp521r1 "client p521" clientAuth "" 9964
+  openssl verify -CAfile rsaCA.cert.pem tlsp384.cert.pem tlsp521.cert.pem tlsclip384.cert.pem tlsclip521.cert.pem 2>&1 | tr '\n' ' '; echo
+fi
